@@ -38,32 +38,29 @@ theorem pathRest_sepToks : ∀ (parts : List String) (first : String) (rest : Li
     simp only [opT, bne_self_eq_false, Bool.false_eq_true, ↓reduceIte, idT, beq_self_eq_true]
     exact pathRest_sepToks parts _ rest h
 
-theorem entityPath_sepToks : ∀ (parts : List String) (first id : String) (rest : List Token), replacementChar ∉ id.toList →
+theorem entityPath_sepToks : ∀ (parts : List String) (first id : String) (rest : List Token),
     entityPath first (sepToks parts ++ opT "::" :: strT id :: rest) = .ok ((joinPath first parts, id), rest)
-  | [], first, id, rest, h => by
+  | [], first, id, rest => by
     simp only [sepToks, List.nil_append, joinPath]
     unfold entityPath
-    have e1 : ((strT id).ty == TokType.ident) = false := rfl
-    simp [opT, e1, strT_ty, strVal_strT id h]
-  | s :: parts, first, id, rest, h => by
+    simp [opT, strT_ty, strVal_strT id]
+  | s :: parts, first, id, rest => by
     simp only [sepToks, List.cons_append, joinPath]
     unfold entityPath
     simp only [opT, bne_self_eq_false, Bool.false_eq_true, ↓reduceIte, idT, beq_self_eq_true]
-    exact entityPath_sepToks parts _ id rest h
+    exact entityPath_sepToks parts _ id rest
 
 theorem entityOrExtFun_sepToks (E : EP) (n : Nat) : ∀ (parts : List String) (first id : String) (rest : List Token),
-    replacementChar ∉ id.toList →
     entityOrExtFun E n first (sepToks parts ++ opT "::" :: strT id :: rest) = okP (.lit (.entity (joinPath first parts) id), rest)
-  | [], first, id, rest, h => by
+  | [], first, id, rest => by
     simp only [sepToks, List.nil_append, joinPath]
     unfold entityOrExtFun
-    have e1 : ((strT id).ty == TokType.ident) = false := rfl
-    simp [opT, e1, strT_ty, strVal_strT id h, bindP]
-  | s :: parts, first, id, rest, h => by
+    simp [opT, strT_ty, strVal_strT id, bindP]
+  | s :: parts, first, id, rest => by
     simp only [sepToks, List.cons_append, joinPath]
     unfold entityOrExtFun
     simp only [opT, beq_self_eq_true, ↓reduceIte, idT]
-    exact entityOrExtFun_sepToks E n parts _ id rest h
+    exact entityOrExtFun_sepToks E n parts _ id rest
 
 /-! ## splitting and joining -/
 
